@@ -38,8 +38,8 @@ theorem delta_first_record_any (s : State) (r : DReq) (hnone : s r.ty = none) (h
     rw [mem_deltaWatched]; simp
 
 theorem sinv_serverRecv (t : Ty) (hm : t.managed = false) (hwild : t.wildcard = false) (y : DSys) (n : String)
-    (gen : List String) (h : SInv t y) :
-    SInv t (dstep t y (.serverRecv n gen)) := by
+    (gen : List String) (deliver : Bool) (h : SInv t y) :
+    SInv t (dstep t y (.serverRecv n gen deliver)) := by
   simp only [dstep, sentNames_named t gen hwild]
   cases hc : y.c2s with
   | nil => simpa using h
@@ -81,15 +81,21 @@ theorem sinv_serverRecv (t : Ty) (hm : t.managed = false) (hwild : t.wildcard = 
         rcases key with ⟨w, hw, hstar, hmem⟩ | ⟨hnone, hnil⟩
         · simp only [hw]; exact ⟨hstar, hmem⟩
         · simp only [hnone]; exact hnil
-      · simp only [SInv]
-        rcases key with ⟨w, hw, hstar, hmem⟩ | ⟨hnone, hnil⟩
-        · obtain ⟨w2, hw2, hn2⟩ := sendDelta_names s' t n true w hw
-          simp only [hw2]
-          rw [hn2]; exact ⟨hstar, hmem⟩
-        · -- answered requests always leave a record
-          obtain ⟨w, hw, _⟩ := delta_responded_state_clean y.srv (m.toReq t) s' hres
-          have : s' t = some w := by simpa [DMsg.toReq] using hw
-          rw [this] at hnone; cases hnone
+      · cases deliver
+        · -- answered, nothing went out: the record is the one the classification made
+          simp only [SInv, Bool.false_eq_true, if_false]
+          rcases key with ⟨w, hw, hstar, hmem⟩ | ⟨hnone, hnil⟩
+          · simp only [hw]; exact ⟨hstar, hmem⟩
+          · simp only [hnone]; exact hnil
+        · simp only [SInv, if_true]
+          rcases key with ⟨w, hw, hstar, hmem⟩ | ⟨hnone, hnil⟩
+          · obtain ⟨w2, hw2, hn2⟩ := sendDelta_names s' t n true w hw
+            simp only [hw2]
+            rw [hn2]; exact ⟨hstar, hmem⟩
+          · -- answered requests always leave a record
+            obtain ⟨w, hw, _⟩ := delta_responded_state_clean y.srv (m.toReq t) s' hres
+            have : s' t = some w := by simpa [DMsg.toReq] using hw
+            rw [this] at hnone; cases hnone
 
 theorem sinv_step (t : Ty) (hm : t.managed = false) (hwild : t.wildcard = false) (y : DSys) (e : DStep) (h : SInv t y) :
     SInv t (dstep t y e) := by
@@ -99,7 +105,7 @@ theorem sinv_step (t : Ty) (hm : t.managed = false) (hwild : t.wildcard = false)
   | clientRecv nack =>
     unfold dstep
     cases hs : y.s2c <;> simpa [SInv] using h
-  | serverRecv n gen => exact sinv_serverRecv t hm hwild y n gen h
+  | serverRecv n gen deliver => exact sinv_serverRecv t hm hwild y n gen deliver h
   | serverPush n ok gen =>
     simp only [dstep, sentNames_named t gen hwild]
     cases hs : y.srv t with
@@ -136,7 +142,7 @@ theorem cinv_step (t : Ty) (y : DSys) (e : DStep) (h : CInv y) : CInv (dstep t y
       rw [h x, foldMsgs_append]
       simp only [foldMsgs, List.foldl_cons, List.foldl_nil]
       rw [mem_applyChange_nil _ _ (star_not_mem_applyChange _ _ _)]
-  | serverRecv n gen =>
+  | serverRecv n gen deliver =>
     unfold dstep
     cases hc : y.c2s with
     | nil => simpa using h
@@ -148,7 +154,10 @@ theorem cinv_step (t : Ty) (y : DSys) (e : DStep) (h : CInv y) : CInv (dstep t y
         simp [foldMsgs]
       cases hres : shouldRespondDelta y.srv (m.toReq t) with
       | crash => simpa [CInv, hc] using h
-      | out b s' => cases b <;> exact h'
+      | out b s' =>
+        cases b
+        · exact h'
+        · cases deliver <;> exact h'
   | serverPush n ok gen =>
     unfold dstep
     cases hs : y.srv t <;> simpa [CInv] using h
@@ -198,9 +207,9 @@ theorem dloop_quiescent_record_matches (t : Ty) (hm : t.managed = false) (hwild 
 /-- Non-vacuity: the finding F-C04-2 schedule (a push overtakes the ACK that carries `+b`) is a schedule of
     this loop; it ends quiescent with `{a, b}` on record. -/
 example :
-    let y := drun .eds DSys.init [.clientWant ["a"] [], .clientFlush, .serverRecv "n1" ["a"], .serverPush "n2" true ["a"],
-      .clientWant ["b"] [], .clientRecv none, .serverRecv "n3" ["b"], .clientRecv none, .clientRecv none,
-      .serverRecv "n4" [], .serverRecv "n5" []]
+    let y := drun .eds DSys.init [.clientWant ["a"] [], .clientFlush, .serverRecv "n1" ["a"] true, .serverPush "n2" true ["a"],
+      .clientWant ["b"] [], .clientRecv none, .serverRecv "n3" ["b"] true, .clientRecv none, .clientRecv none,
+      .serverRecv "n4" [] true, .serverRecv "n5" [] true]
     y.c2s = [] ∧ y.pendSub = [] ∧ y.pendUnsub = [] ∧ (y.srv .eds).map (·.names) = some ["a", "b"] ∧ y.cwant = ["a", "b"] := by
   decide
 
